@@ -91,6 +91,26 @@ impl PurlShape for Shape {
     }
 }
 
+/// Reference reading of a checksum value, written from the property text (not from the crate): entries `algorithm:hex` separated by
+/// `,`, split at the last `:`; even number of hex digits; algorithms lower-cased char by char and distinct; canonical text = sorted by
+/// algorithm, lower-case hex.  None = malformed.
+fn checksum_reference(v: &str) -> Option<String> {
+    let mut ents: Vec<(String, String)> = Vec::new();
+    for e in v.split(',') {
+        let (a, h) = e.rsplit_once(':')?;
+        if h.len() % 2 != 0 || !h.chars().all(|c| c.is_ascii_hexdigit()) {
+            return None;
+        }
+        let la: String = a.chars().flat_map(char::to_lowercase).collect();
+        if ents.iter().any(|(x, _)| *x == la) {
+            return None;
+        }
+        ents.push((la, h.to_ascii_lowercase()));
+    }
+    ents.sort();
+    Some(ents.iter().map(|(a, h)| format!("{}:{}", a, h)).collect::<Vec<_>>().join(","))
+}
+
 fn err_name(e: &ShapeErr) -> String {
     match e {
         ShapeErr::Conv => "Conv".into(),
@@ -157,7 +177,27 @@ pub fn run(req: &Value) -> Value {
         b.build()
     };
     let log = LOG.with(|l| l.borrow().clone());
-    let pre = PRE.with(|p| p.borrow().clone());
+    let mut pre = PRE.with(|p| p.borrow().clone());
+    // the checksum value the hook leaves behind (its last edit of that key, else what it was given), read by the reference above
+    if !pre.is_null() {
+        let mut ck: Option<String> = pre["quals"].as_array().and_then(|a| a.iter().find(|e| unhex(&e[0]) == "checksum").map(|e| unhex(&e[1])));
+        let cfg = CFG.with(|c| c.borrow().clone());
+        for e in &cfg.hook {
+            if e[0] == "fail" {
+                break;
+            }
+            if e[0] == "qual" && e[1].to_ascii_lowercase() == "checksum" {
+                ck = Some(e[2].clone());
+            }
+        }
+        pre["checksum_left"] = match &ck {
+            Some(v) if !v.is_empty() => match checksum_reference(v) {
+                Some(c) => json!({"canonical": hx(&c)}),
+                None => json!({"malformed": true}),
+            },
+            _ => Value::Null,
+        };
+    }
     match r {
         Ok(p) => json!({"ok": observe(&p), "log": log, "pre": pre}),
         Err(e) => json!({"err": err_name(&e), "log": log, "pre": pre}),
